@@ -11,6 +11,7 @@ import (
 	"runtime/debug"
 	"sort"
 	"testing"
+	"time"
 
 	"verif/mc/ev"
 
@@ -90,6 +91,12 @@ func TestCheck(t *testing.T) {
 	pub := mkIdent(0)
 	committee := propeller.CommitteeID(sha256.Sum256([]byte("committee")))
 	maxD, maxP := ev.Pick(r, 3, 4), ev.Pick(r, 3, 4)
+
+	// ---- Part E: configuration-size corners (large_test.go). Runs FIRST: it is cheap and must never be cut by the
+	// internal deadline that bounds the exhaustive parts below.
+	t0 := time.Now()
+	largeNontrivial := partE(r)
+	fmt.Printf("part E (configuration-size corners): %.1fs\n", time.Since(t0).Seconds()) // information only, no oracle
 
 	// ---- Part A: reconstruction from every subset -----------------------------------------
 	distinct := map[string]bool{}
@@ -260,7 +267,7 @@ func TestCheck(t *testing.T) {
 	// ---- Part B: validator accepts honest units, rejects every single-field corruption ----
 	partB(r, distinct)
 
-	r.Set("distinct_nontrivial", int64(len(distinct))+seqNontrivial)
+	r.Set("distinct_nontrivial", int64(len(distinct))+seqNontrivial+largeNontrivial)
 	r.Set("rule", "cases = (data,parity,len,subset-mask[,local]) reconstructions + (committee size, publisher, receiver, unit, corruption) validations; "+
 		"non-trivial = subset neither empty nor full (something must be recovered or refused) or a corruption that changes the unit; "+
 		"part C: message lengths putting the shard / Merkle-leaf size at and around 32..1024 and 500: signed root == independent SHA-256-tagged reference root, proofs verify under the independent verifier, "+
